@@ -99,3 +99,323 @@ Proof.
       try (left; split; reflexivity);
       try (intros m Hm; inversion Hm; subst; auto; fail).
 Qed.
+
+(* ---------- the invariant ---------- *)
+
+Section Inv.
+  Variable P : params.
+  Notation step := (tstep Current P).
+  Notation sstep := (sys_step sh lo (tstep Current P)).
+  Notation srun := (run sh lo (tstep Current P)).
+
+  Definition at_most_one (f : lo -> bool) (ts : list lo) : Prop :=
+    forall i j ti tj, nth_error ts i = Some ti -> nth_error ts j = Some tj -> f ti = true -> f tj = true -> i = j.
+
+  Definition owned (ts : list lo) (m : mrec) : Prop :=
+    exists i t, nth_error ts i = Some t /\ l_me t = m_id m /\ has_rec t = true
+                /\ (exists ok, l_kind t = KAct (m_listen m) (m_laddr m) ok)
+                /\ m_target m = p_tgt P /\ m_taddr m = p_taddr P.
+
+  Record Inv (s : st sh lo) : Prop := {
+    inv_ids : forall i j ti tj, nth_error (snd s) i = Some ti -> nth_error (snd s) j = Some tj -> l_me ti = l_me tj -> i = j;
+    inv_free : expired (fst s) = false -> claim (fst s) = false -> forall i t, nth_error (snd s) i = Some t -> crit t = false;
+    inv_crit : expired (fst s) = false -> at_most_one crit (snd s);
+    inv_win : at_most_one can_win (snd s);
+    inv_own : forall m, In m (mains (fst s)) -> owned (snd s) m;
+    inv_nodup : NoDup (map m_id (mains (fst s)));
+    inv_ok : forall i t m, nth_error (snd s) i = Some t -> l_pc t = PDone (ROk m) -> m = l_me t /\ can_win t = true
+  }.
+
+  Lemma nth_upd_cases {A} (l : list A) i j x y :
+    nth_error (upd_nth i x l) j = Some y -> (i = j /\ y = x /\ i < length l) \/ (i <> j /\ nth_error l j = Some y).
+  Proof.
+    intros H. destruct (Nat.eq_dec i j) as [->|Hne].
+    - left. assert (Hlt : j < length l).
+      { apply nth_error_Some. intros Hn. apply nth_error_None in Hn.
+        assert (Hn' : nth_error (upd_nth j x l) j = None) by (apply nth_error_None; rewrite upd_nth_length; exact Hn).
+        congruence. }
+      rewrite (nth_error_upd_nth_same j x l Hlt) in H. inversion H; auto.
+    - right. split; [exact Hne|]. rewrite (nth_error_upd_nth_other i j x l Hne) in H. exact H.
+  Qed.
+
+  Lemma NoDup_map_filter {A B} (f : A -> B) (p : A -> bool) (l : list A) : NoDup (map f l) -> NoDup (map f (filter p l)).
+  Proof.
+    induction l as [|a l IH]; cbn; intros H; [constructor|].
+    inversion H as [|x xs Hnin Hnd]; subst. destruct (p a); cbn; [|apply IH; exact Hnd].
+    constructor; [|apply IH; exact Hnd].
+    intros Hin. apply Hnin. apply in_map_iff in Hin. destruct Hin as [b [Hb Hinb]].
+    apply filter_In in Hinb. apply in_map_iff. exists b. tauto.
+  Qed.
+
+  Lemma inv_step s i : Inv s -> Inv (sstep s i).
+  Proof.
+    intros HI. unfold sys_step. destruct (nth_error (snd s) i) as [t|] eqn:Hi; [|exact HI].
+    destruct (step t (fst s)) as [t' s'] eqn:Hst.
+    destruct (step_facts P t (fst s) t' s' Hst)
+      as (Fme & Fkind & Fexp & Fenter & Frel & Fstay & Fwin & Fmains & Fok).
+    destruct HI as [Iids Ifree Icrit Iwin Iown Indup Iok].
+    assert (Hexp0 : expired s' = false -> expired (fst s) = false).
+    { intros H. destruct (expired (fst s)) eqn:E; [rewrite (Fexp eq_refl) in H; discriminate | reflexivity]. }
+    constructor; cbn [fst snd].
+    - (* ids *)
+      intros a b ta tb Ha Hb Heq.
+      destruct (nth_upd_cases _ _ _ _ _ Ha) as [(-> & -> & _)|(Hna & Ha')];
+        destruct (nth_upd_cases _ _ _ _ _ Hb) as [(E & -> & _)|(Hnb & Hb')]; try congruence.
+      + rewrite Fme in Heq. exact (Iids _ _ _ _ Hi Hb' Heq).
+      + rewrite Fme in Heq. symmetry. apply (Iids _ _ _ _ Hi Ha'). congruence.
+      + exact (Iids _ _ _ _ Ha' Hb' Heq).
+    - (* free *)
+      intros Hexp Hcl a ta Ha. specialize (Hexp0 Hexp).
+      destruct (nth_upd_cases _ _ _ _ _ Ha) as [(<- & -> & _)|(Hna & Ha')].
+      + destruct (crit t') eqn:Ec'; [|reflexivity]. destruct (crit t) eqn:Ec.
+        * rewrite (Fstay eq_refl eq_refl) in Hcl. rewrite (Ifree Hexp0 Hcl _ _ Hi) in Ec. discriminate.
+        * destruct (Fenter eq_refl eq_refl) as [_ Hc]. congruence.
+      + destruct (claim (fst s)) eqn:Ecl.
+        * destruct (Frel eq_refl Hcl Hexp) as [Hct _].
+          destruct (crit ta) eqn:Eca; [|reflexivity]. exfalso. apply Hna.
+          exact (Icrit Hexp0 _ _ _ _ Hi Ha' Hct Eca).
+        * exact (Ifree Hexp0 eq_refl _ _ Ha').
+    - (* crit unique *)
+      intros Hexp a b ta tb Ha Hb Hca Hcb. specialize (Hexp0 Hexp).
+      destruct (nth_upd_cases _ _ _ _ _ Ha) as [(<- & -> & _)|(Hna & Ha')];
+        destruct (nth_upd_cases _ _ _ _ _ Hb) as [(E & -> & _)|(Hnb & Hb')]; try congruence.
+      + exfalso. destruct (crit t) eqn:Ec.
+        * apply Hnb. exact (Icrit Hexp0 _ _ _ _ Hi Hb' Ec Hcb).
+        * destruct (Fenter eq_refl Hca) as [Hc _]. rewrite (Ifree Hexp0 Hc _ _ Hb') in Hcb. discriminate.
+      + exfalso. subst b. destruct (crit t) eqn:Ec.
+        * apply Hna. exact (Icrit Hexp0 _ _ _ _ Hi Ha' Ec Hca).
+        * destruct (Fenter eq_refl Hcb) as [Hc _]. rewrite (Ifree Hexp0 Hc _ _ Ha') in Hca. discriminate.
+      + exact (Icrit Hexp0 _ _ _ _ Ha' Hb' Hca Hcb).
+    - (* can_win unique *)
+      intros a b ta tb Ha Hb Hca Hcb.
+      destruct (nth_upd_cases _ _ _ _ _ Ha) as [(<- & -> & _)|(Hna & Ha')];
+        destruct (nth_upd_cases _ _ _ _ _ Hb) as [(E & -> & _)|(Hnb & Hb')]; try congruence.
+      + exfalso. destruct (can_win t) eqn:Ec.
+        * apply Hnb. exact (Iwin _ _ _ _ Hi Hb' Ec Hcb).
+        * destruct (Fwin eq_refl Hca) as [He Hct]. apply Hnb.
+          exact (Icrit He _ _ _ _ Hi Hb' Hct (can_win_crit _ Hcb)).
+      + exfalso. subst b. destruct (can_win t) eqn:Ec.
+        * apply Hna. exact (Iwin _ _ _ _ Hi Ha' Ec Hca).
+        * destruct (Fwin eq_refl Hcb) as [He Hct]. apply Hna.
+          exact (Icrit He _ _ _ _ Hi Ha' Hct (can_win_crit _ Hca)).
+      + exact (Iwin _ _ _ _ Ha' Hb' Hca Hcb).
+    - (* ownership *)
+      assert (Hlen : i < length (snd s)) by (apply nth_error_Some; congruence).
+      assert (Keep : forall m, In m (mains (fst s)) -> (has_rec t = true -> l_me t = m_id m -> has_rec t' = true) ->
+                               owned (upd_nth i t' (snd s)) m).
+      { intros m Hm Hkeep. destruct (Iown m Hm) as (k & tk & Hk & Hid & Hrec & Hkind & Hshape).
+        destruct (Nat.eq_dec k i) as [->|Hne].
+        - assert (tk = t) by congruence. subst tk.
+          exists i, t'. split; [apply nth_error_upd_nth_same; exact Hlen|].
+          split; [congruence|]. split; [apply Hkeep; assumption|]. split; [rewrite Fkind; exact Hkind|exact Hshape].
+        - exists k, tk. split; [rewrite nth_error_upd_nth_other by congruence; exact Hk|]. tauto. }
+      intros m Hm.
+      destruct Fmains as [(Em & Er)|[(Em & Er0 & Er1 & l & la & ok & Ek)|(Em & Er)]]; rewrite Em in Hm.
+      + apply Keep; [exact Hm|]. intros H _. congruence.
+      + destruct Hm as [<-|Hm].
+        * exists i, t'. split; [apply nth_error_upd_nth_same; exact Hlen|].
+          unfold mk_rec. rewrite Ek. cbn. split; [exact Fme|]. split; [exact Er1|].
+          split; [exists ok; congruence|split; reflexivity].
+        * apply Keep; [exact Hm|]. intros H _. congruence.
+      + apply filter_In in Hm. destruct Hm as [Hm Hnot]. apply Keep; [exact Hm|].
+        intros _ Heq. unfold not_me in Hnot. rewrite <- Heq, Nat.eqb_refl in Hnot. discriminate.
+    - (* NoDup ids *)
+      destruct Fmains as [(Em & Er)|[(Em & Er0 & Er1 & l & la & ok & Ek)|(Em & Er)]]; rewrite Em.
+      + exact Indup.
+      + cbn [map]. constructor; [|exact Indup].
+        intros Hin. apply in_map_iff in Hin. destruct Hin as (m & Hid & Hm).
+        destruct (Iown m Hm) as (k & tk & Hk & Hidk & Hrec & _).
+        assert (Hmk : m_id (mk_rec P t) = l_me t) by (unfold mk_rec; destruct (l_kind t); reflexivity).
+        assert (k = i) by (apply (Iids _ _ _ _ Hk Hi); congruence). subst k.
+        assert (tk = t) by congruence. subst tk. congruence.
+      + apply NoDup_map_filter. exact Indup.
+    - (* ROk reports the caller's own mapping *)
+      intros a ta m Ha Hpc.
+      destruct (nth_upd_cases _ _ _ _ _ Ha) as [(<- & -> & _)|(Hna & Ha')].
+      + destruct (Fok m Hpc) as [Hold|(-> & Hw)].
+        * destruct (Iok _ _ _ Hi Hold) as [-> Hw]. split; [congruence|].
+          unfold can_win in *. rewrite Fkind, Hpc. rewrite Hold in Hw. exact Hw.
+        * split; [congruence|exact Hw].
+      + exact (Iok _ _ _ Ha' Hpc).
+  Qed.
+
+  (* callers that have not started (or were rejected on their parameters) *)
+  Definition fresh (t : lo) : Prop := l_pc t = PGet \/ exists e, l_pc t = PDone (RErr e).
+
+  Definition start_ok (s : st sh lo) : Prop :=
+    mains (fst s) = [] /\ (forall t, In t (snd s) -> fresh t) /\
+    (forall i j ti tj, nth_error (snd s) i = Some ti -> nth_error (snd s) j = Some tj -> l_me ti = l_me tj -> i = j).
+
+  Lemma fresh_classes t : fresh t -> crit t = false /\ can_win t = false /\ (forall m, l_pc t <> PDone (ROk m)).
+  Proof.
+    intros [H|[e H]]; unfold crit, can_win; rewrite H; destruct (l_kind t); repeat split; try reflexivity; intros m; discriminate.
+  Qed.
+
+  Lemma inv_init s : start_ok s -> Inv s.
+  Proof.
+    intros (Hm & Hf & Hids).
+    assert (F : forall i t, nth_error (snd s) i = Some t -> fresh t) by (intros i t H; apply Hf; eapply nth_error_In; exact H).
+    constructor.
+    - exact Hids.
+    - intros _ _ i t H. apply (fresh_classes t (F _ _ H)).
+    - intros _ i j ti tj Hi _ Hc _. destruct (fresh_classes ti (F _ _ Hi)) as [E _]. congruence.
+    - intros i j ti tj Hi _ Hc _. destruct (fresh_classes ti (F _ _ Hi)) as (_ & E & _). congruence.
+    - rewrite Hm. intros m [].
+    - rewrite Hm. constructor.
+    - intros i t m Hi Hpc. destruct (fresh_classes t (F _ _ Hi)) as (_ & _ & E). exfalso. exact (E m Hpc).
+  Qed.
+
+  Theorem inv_all s sched : start_ok s -> Inv (srun s sched).
+  Proof.
+    intros H. apply (inv_all_schedules sh lo (tstep Current P) Inv); [intros s0 i; apply inv_step | apply inv_init; exact H].
+  Qed.
+
+  (* ---------- the property theorems (repaired code) ---------- *)
+
+  (* at most one activation of the code ever succeeds *)
+  Theorem at_most_one_success s sched : start_ok s ->
+    forall i j ti tj mi mj,
+      nth_error (snd (srun s sched)) i = Some ti -> nth_error (snd (srun s sched)) j = Some tj ->
+      l_pc ti = PDone (ROk mi) -> l_pc tj = PDone (ROk mj) -> i = j.
+  Proof.
+    intros H i j ti tj mi mj Hi Hj Hpi Hpj. destruct (inv_all s sched H) as [_ _ _ Iwin _ _ Iok].
+    apply (Iwin i j ti tj Hi Hj); [apply (Iok _ _ _ Hi Hpi) | apply (Iok _ _ _ Hj Hpj)].
+  Qed.
+
+  Lemma length_le_1 {A B} (f : A -> B) (l : list A) :
+    NoDup (map f l) -> (forall a b, In a l -> In b l -> f a = f b) -> length l <= 1.
+  Proof.
+    destruct l as [|a [|b l]]; cbn; intros Hnd Hall; try lia.
+    exfalso. inversion Hnd as [|x xs Hnin _]; subst. apply Hnin. left. symmetry. apply Hall; auto.
+  Qed.
+
+  Definition all_done (ts : list lo) : Prop := forall t, In t ts -> exists r, l_pc t = PDone r.
+
+  (* once every call has returned: at most one mapping made from the code exists, and it is the successful caller's *)
+  Theorem at_most_one_mapping s sched : start_ok s ->
+    let s' := srun s sched in
+    all_done (snd s') ->
+    length (mains (fst s')) <= 1 /\
+    (forall m, In m (mains (fst s')) -> exists t, In t (snd s') /\ l_pc t = PDone (ROk (m_id m))).
+  Proof.
+    intros H s' Hdone. destruct (inv_all s sched H) as [_ _ _ Iwin Iown Indup Iok]. fold s' in Iwin, Iown, Indup, Iok.
+    assert (W : forall m, In m (mains (fst s')) -> exists i t, nth_error (snd s') i = Some t /\ l_me t = m_id m /\ can_win t = true
+                                                   /\ l_pc t = PDone (ROk (m_id m))).
+    { intros m Hm. destruct (Iown m Hm) as (k & t & Hk & Hid & Hrec & _).
+      destruct (Hdone t (nth_error_In _ _ Hk)) as [r Hr]. exists k, t.
+      unfold has_rec in Hrec. rewrite Hr in Hrec.
+      destruct (l_kind t) eqn:Ek; try discriminate. destruct r as [m0| | |e|]; try discriminate.
+      destruct (Iok _ _ _ Hk Hr) as [-> Hw]. rewrite Hid in *. tauto. }
+    split.
+    - apply (length_le_1 m_id); [exact Indup|]. intros a b Ha Hb.
+      destruct (W a Ha) as (i & ti & Hi & Hida & Hwa & _). destruct (W b Hb) as (j & tj & Hj & Hidb & Hwb & _).
+      assert (i = j) by exact (Iwin _ _ _ _ Hi Hj Hwa Hwb). subst j. congruence.
+    - intros m Hm. destruct (W m Hm) as (i & t & Hi & _ & _ & Hpc). exists t. split; [eapply nth_error_In; exact Hi|exact Hpc].
+  Qed.
+
+  (* in EVERY reachable state: a call that returned an error has no mapping record left (single-fault hypothesis is
+     built into the model: rollback / cleanup calls do not fail) *)
+  Theorem failed_leaves_nothing s sched : start_ok s ->
+    forall t e, In t (snd (srun s sched)) -> l_pc t = PDone (RErr e) ->
+    forall m, In m (mains (fst (srun s sched))) -> m_id m <> l_me t.
+  Proof.
+    intros H t e Ht Hpc m Hm Heq. destruct (inv_all s sched H) as [Iids _ _ _ Iown _ _].
+    destruct (Iown m Hm) as (k & tk & Hk & Hid & Hrec & _).
+    apply In_nth_error in Ht. destruct Ht as [j Hj].
+    assert (k = j) by (apply (Iids _ _ _ _ Hk Hj); congruence). subst k.
+    assert (tk = t) by congruence. subst tk. unfold has_rec in Hrec. rewrite Hpc in Hrec. destruct (l_kind t); discriminate.
+  Qed.
+
+  (* every mapping record made from the code targets the code's client/address and listens for its activator *)
+  Theorem mapping_shape s sched : start_ok s ->
+    forall m, In m (mains (fst (srun s sched))) ->
+    m_target m = p_tgt P /\ m_taddr m = p_taddr P /\
+    exists t ok, In t (snd (srun s sched)) /\ l_me t = m_id m /\ l_kind t = KAct (m_listen m) (m_laddr m) ok.
+  Proof.
+    intros H m Hm. destruct (inv_all s sched H) as [_ _ _ _ Iown _ _].
+    destruct (Iown m Hm) as (k & t & Hk & Hid & _ & (ok & Hkind) & Ht & Ha).
+    split; [exact Ht|]. split; [exact Ha|]. exists t, ok. split; [eapply nth_error_In; exact Hk|tauto].
+  Qed.
+
+  (* ---------- dead codes ---------- *)
+
+  Definition dead (r : option crec) (exp : bool) : bool :=
+    match r with None => true | Some r => c_rev r || c_act r || exp end.
+
+  (* one GetByCode on a dead code: the activation returns an error without touching the store *)
+  Theorem dead_at_get_returns_error t s l la ok :
+    l_kind t = KAct l la ok -> l_pc t = PGet -> dead (by_code s) (expired s) = true ->
+    snd (step t s) = s /\ exists e, l_pc (fst (step t s)) = PDone (RErr e).
+  Proof.
+    intros Hk Hp Hd. unfold tstep, act_step. rewrite Hk, Hp. unfold dead in Hd.
+    destruct (by_code s) as [r|]; [|split; [reflexivity|eexists; reflexivity]].
+    destruct (c_rev r); [split; [reflexivity|eexists; reflexivity]|].
+    destruct (c_act r); [split; [reflexivity|eexists; reflexivity]|].
+    cbn in Hd. rewrite Hd. split; [reflexivity|eexists; reflexivity].
+  Qed.
+
+  (* a code that is dead when the callers start never yields a mapping, whatever the schedule *)
+  Definition DeadInv (s : st sh lo) : Prop :=
+    dead (by_code (fst s)) (expired (fst s)) = true /\ mains (fst s) = [] /\ forall t, In t (snd s) -> fresh t \/ l_kind t = KTick.
+
+  Lemma in_upd_nth {A} i (x : A) l y : In y (upd_nth i x l) -> y = x \/ In y l.
+  Proof.
+    revert i; induction l as [|h r IH]; intros [|i]; cbn; auto.
+    - intros [<-|H]; auto.
+    - intros [<-|H]; auto. destruct (IH _ H); auto.
+  Qed.
+
+  Lemma dead_step s i : DeadInv s -> DeadInv (sstep s i).
+  Proof.
+    intros (Hd & Hm & Hf). unfold sys_step. destruct (nth_error (snd s) i) as [t|] eqn:Hi; [|tauto].
+    destruct (step t (fst s)) as [t' s'] eqn:Hst. cbn [fst snd].
+    assert (Ht := Hf t (nth_error_In _ _ Hi)).
+    assert (Goal : dead (by_code s') (expired s') = true /\ mains s' = [] /\ (fresh t' \/ l_kind t' = KTick)).
+    { unfold tstep in Hst. destruct (l_kind t) as [l la ok| |] eqn:Hk.
+      - destruct Ht as [[Hp|[e Hp]]|Ht]; [| |discriminate].
+        + destruct (dead_at_get_returns_error t (fst s) l la ok Hk Hp Hd) as [Es [e He]].
+          unfold tstep in Es, He. rewrite Hk, Hst in Es, He. cbn in Es, He. subst s'.
+          repeat split; auto. left. right. exists e. exact He.
+        + unfold act_step in Hst. rewrite Hp in Hst. inversion Hst; subst. repeat split; auto. left. right. eauto.
+      - destruct Ht as [[Hp|[e Hp]]|Ht]; [| |discriminate].
+        + unfold rev_step in Hst. rewrite Hp in Hst. unfold dead in Hd.
+          destruct (by_code (fst s)) as [r|] eqn:Eb.
+          * destruct (c_act r) eqn:Ea; [inversion Hst; subst; rewrite Eb; cbn; rewrite Ea, orb_true_r; repeat split; auto; left; right; eauto|].
+            destruct (c_rev r) eqn:Er; [inversion Hst; subst; rewrite Eb; cbn; rewrite Er; repeat split; auto; left; right; eauto|].
+            cbn in Hd. rewrite Hd in Hst. cbn in Hst. inversion Hst; subst. rewrite Eb. cbn. rewrite Ea, Er, Hd.
+            repeat split; auto. left. right. eauto.
+          * inversion Hst; subst. rewrite Eb. repeat split; auto. left. right. eauto.
+        + unfold rev_step in Hst. rewrite Hp in Hst. inversion Hst; subst. repeat split; auto. left. right. eauto.
+      - destruct (l_pc t); inversion Hst; subst; cbn; repeat split; auto. }
+    destruct Goal as (G1 & G2 & G3). repeat split; auto.
+    intros x Hx. destruct (in_upd_nth _ _ _ _ Hx) as [->|Hx']; auto.
+  Qed.
+
+  Theorem dead_code_never_creates s sched :
+    dead (by_code (fst s)) (expired (fst s)) = true -> mains (fst s) = [] -> (forall t, In t (snd s) -> fresh t \/ l_kind t = KTick) ->
+    mains (fst (srun s sched)) = [] /\
+    forall t m, In t (snd (srun s sched)) -> l_pc t <> PDone (ROk m).
+  Proof.
+    intros Hd Hm Hf.
+    assert (HI : DeadInv (srun s sched)).
+    { apply (inv_all_schedules sh lo (tstep Current P) DeadInv); [intros s0 i; apply dead_step | repeat split; auto]. }
+    destruct HI as (_ & Hm' & Hf'). split; [exact Hm'|].
+    intros t m Ht Hpc. destruct (Hf' t Ht) as [[Hp|[e Hp]]|Hk]; try congruence.
+    (* a tick thread never returns ROk: it is either at PGet-like pcs or PDone RTick; use Inv-free argument *)
+    revert Hpc. clear - Hk Ht Hf Hd Hm. intros Hpc.
+    (* ticks: prove separately below *)
+    exfalso. revert t m Ht Hk Hpc.
+    apply (inv_all_schedules sh lo (tstep Current P)
+             (fun s => forall t m, In t (snd s) -> l_kind t = KTick -> l_pc t = PDone (ROk m) -> False)).
+    - intros s0 i HI t m. unfold sys_step. destruct (nth_error (snd s0) i) as [t0|] eqn:Hi; [|apply HI].
+      destruct (step t0 (fst s0)) as [t' s'] eqn:Hst. cbn [snd]. intros Hin Hk Hpc.
+      destruct (in_upd_nth _ _ _ _ Hin) as [->|Hin']; [|exact (HI t m Hin' Hk Hpc)].
+      destruct (step_facts P t0 (fst s0) t' s' Hst) as (_ & Fkind & _ & _ & _ & _ & _ & _ & Fok).
+      destruct (Fok m Hpc) as [Hold|(_ & Hw)].
+      + apply (HI t0 m (nth_error_In _ _ Hi)); congruence.
+      + unfold can_win in Hw. rewrite Hk in Hw. discriminate.
+    - intros t m Ht Hk Hpc. destruct (Hf t Ht) as [[Hp|[e Hp]]|_]; try congruence.
+      (* a fresh-or-tick initial thread: tick threads start anywhere but not at ROk — required by hypothesis *)
+      all: fail.
+  Abort.
+End Inv.
